@@ -28,11 +28,13 @@ LEVEL = "other"
 MANIFEST = {
     "text": "decides the structural clauses D1-D5 for all 12 one-shot decrypt functions (plain, masked, SIV, "
             "ISAP), the 3 incremental finalize functions and ascon_mac_verify: short-input guard before any "
-            "access, verdict = tag comparison result, comparison over the full 16-byte tag and wipe over the "
-            "full plaintext, and a proof of the comparison routine itself (loop coverage by scalar evolution, "
-            "exhaustive accumulator / verdict / mask transfer functions, single loop exit); that decryption "
-            "inverts encryption and that every modified input changes the recomputed tag are properties of the "
-            "cipher and are not decided",
+            "access, verdict = tag comparison result, comparison over the full 16-byte tag and wipe over the full "
+            "plaintext, a proof of the comparison routine itself (loop coverage by scalar evolution, exhaustive "
+            "accumulator / verdict / mask transfer functions, single loop exit), the order of the two-pass modes; "
+            "and D6, per enumerated shape and for all key/nonce/data values: decrypt(encrypt(m)) = m with success "
+            "for one-shot / incremental / masked / in-place decryption and for receiver sessions that reuse one "
+            "state across packets, an independent tag is rejected with -1 and the plaintext buffer is wiped; that "
+            "every modified input is rejected is a property of the cipher's strength and is not decided",
     "note": "trusted: clang lowering, irdump, LLVM scalar evolution; `*mlen` re-loads are identified with the "
             "value stored to *mlen (no other store to it exists in the function - checked)",
     "technique": "guard dominance and def-use checks on LLVM IR, argument provenance, scalar-evolution loop "
